@@ -40,6 +40,13 @@ families whose special function is scipy's          …_partial: lognormal / nor
                                                       FULL STATEMENT (for scipy's actual ndtr/gammainc/von Mises
                                                       cdf, and pdf = d/dx cdf for these families) is not provable
                                                       here: only observed numerically by harness/c05.py.
+families WITHOUT a consistency theorem of their own  GammaScipyDistribution, BetaScipyDistribution (only
+                                                      scipy_subclass_identity_map) and LogNormalNormFitDistribution (only the
+                                                      moment map lognormfit_moments / scipy_form_eq_documented_lognormfit):
+                                                      monotone 0..1, inverse laws, pdf = d/dx cdf, pdf ≥ 0 are OBSERVED only.
+container type of a value (ndarray-valued parameters,  no theorem (the tables say which expression reaches which scipy slot):
+  int / float32 / tuple / 0-d / empty x), instance     OBSERVED per run by harness/c05.py, as are icdf(0) / icdf(1) = ends of
+  re-use after an explicit-parameter call              the support and cdf(±∞) = 0 / 1
 the defect this found (DESIGN 4 #1)                 override_law_counterexample_old_normal
 
 All analytic theorems are over ℝ (`realTr`); the driver evaluates the same definitions at Float and
